@@ -827,6 +827,8 @@ def _atomic_row(e):
         return True
     if isinstance(e, ast.Lambda) or _is_partial(e):
         return True  # a function value: substituted where it is called
+    if isinstance(e, ast.Tuple) and e.elts and all(isinstance(x, (ast.Name, ast.Attribute, ast.Constant)) for x in e.elts):
+        return True  # a tuple of classes / constants (isinstance(x, (A, B)), membership)
     if isinstance(e, ast.Name):
         return True
     if isinstance(e, ast.Attribute):
